@@ -51,6 +51,10 @@ pub fn check_val(c: &Val) -> Verdict {
     let disp = format!("{}", x);
     let disp_ref = format!("{}", x.to_ref());
     ensure!(v, disp == disp_ref, "C04/ref-differs:display", "Display of value {:?} and of reference {:?} differ", disp, disp_ref);
+    // a reference whose sign was flipped without touching the digits prints like the negated value
+    let neg_val = -x.clone();
+    ensure!(v, format!("{}", -x.to_ref()) == format!("{}", neg_val), "C04/negref-differs:display", "Display of -ref {:?} and of the negated value {:?} differ", format!("{}", -x.to_ref()), format!("{}", neg_val));
+    ensure!(v, format!("{:e}", -x.to_ref()) == format!("{:e}", neg_val), "C04/negref-differs:lowerexp", "{{:e}} of -ref and of the negated value differ");
     let padded = scale < 0 && -scale <= (cfg.upper as i128).min(20);
     check_text(&mut v, "display", &disp, &m, !padded);
     // notation switch
